@@ -692,7 +692,7 @@ def _why(verdict):
 CLASSES = [  # priority order: a failing case is filed under the first class that explains one of its clauses
     "split:unaligned-range:upper-outside-active",
     "merge:absolute:active-range-of-upper-rank", "merge:relative:shape-and-active-range-of-upper-rank",
-    "flatten:tuple:levels>=2:nested-active-range", "flatten:estimated:shape-from-last-tuple-coordinate", "lazy:project:rank-id-unknown"]
+    "flatten:estimated:shape-from-last-tuple-coordinate", "lazy:project:rank-id-unknown"]
 
 
 def explain(case, tags, clause):
@@ -718,8 +718,6 @@ def explain(case, tags, clause):
             return "merge:absolute:active-range-of-upper-rank"
         if st == "relative" and clause in (f"active@{k}", f"shape@{k}"):
             return "merge:relative:shape-and-active-range-of-upper-rank"
-        if st == "tuple" and op["levels"] >= 2 and clause == f"active@{k}":
-            return "flatten:tuple:levels>=2:nested-active-range"
         if st in ("tuple", "pair") and clause == f"shape@{k}" and "src-est" in tags:
             return "flatten:estimated:shape-from-last-tuple-coordinate"
     return None
